@@ -13,18 +13,18 @@ namespace Model
 namespace JsonParser
 open Spec.Rfc8259 (JT Flags parseValue parseElems parseMembers parseText parseString parseNumber skipWs startsWith isWs)
 
-/-! ### the reference, one production at a time (no comments, no trailing commas) -/
+/-! ### the reference, one production at a time (no comments, the parser's trailing-comma option) -/
 
 theorem pv_arr_nil (cfg : Cfg) (f n : Nat) (cs rest : Bytes) (hd : ¬ n + 1 > cfg.maxDepth) (h : dropWs cs = 93 :: rest) :
-    parseValue (strictFlags cfg) (f + 1) n (91 :: cs) = some (.arr [], rest) := by
+    parseValue (tcFlags cfg) (f + 1) n (91 :: cs) = some (.arr [], rest) := by
   simp only [parseValue]
   simp only [show ¬ ((91 : Nat) = 123) by decide, if_false, if_true, hd]
   rw [skipWs_eq _ _ (Nat.lt_succ_self _), h]
   rfl
 
 theorem pv_arr_cons (cfg : Cfg) (f n : Nat) (cs : Bytes) (hd : ¬ n + 1 > cfg.maxDepth) (h : ∀ rest, dropWs cs ≠ 93 :: rest) :
-    parseValue (strictFlags cfg) (f + 1) n (91 :: cs) =
-      (parseElems (strictFlags cfg) f (n + 1) (dropWs cs)).map fun p => (.arr p.1, p.2) := by
+    parseValue (tcFlags cfg) (f + 1) n (91 :: cs) =
+      (parseElems (tcFlags cfg) f (n + 1) (dropWs cs)).map fun p => (.arr p.1, p.2) := by
   simp only [parseValue]
   simp only [show ¬ ((91 : Nat) = 123) by decide, if_false, if_true, hd]
   rw [skipWs_eq _ _ (Nat.lt_succ_self _)]
@@ -38,15 +38,15 @@ theorem pv_arr_cons (cfg : Cfg) (f n : Nat) (cs : Bytes) (hd : ¬ n + 1 > cfg.ma
     rw [heq]
 
 theorem pv_obj_nil (cfg : Cfg) (f n : Nat) (cs rest : Bytes) (hd : ¬ n + 1 > cfg.maxDepth) (h : dropWs cs = 125 :: rest) :
-    parseValue (strictFlags cfg) (f + 1) n (123 :: cs) = some (.obj [], rest) := by
+    parseValue (tcFlags cfg) (f + 1) n (123 :: cs) = some (.obj [], rest) := by
   simp only [parseValue]
   simp only [if_true, hd, if_false]
   rw [skipWs_eq _ _ (Nat.lt_succ_self _), h]
   rfl
 
 theorem pv_obj_cons (cfg : Cfg) (f n : Nat) (cs : Bytes) (hd : ¬ n + 1 > cfg.maxDepth) (h : ∀ rest, dropWs cs ≠ 125 :: rest) :
-    parseValue (strictFlags cfg) (f + 1) n (123 :: cs) =
-      (parseMembers (strictFlags cfg) f (n + 1) (dropWs cs)).map fun p => (.obj p.1, p.2) := by
+    parseValue (tcFlags cfg) (f + 1) n (123 :: cs) =
+      (parseMembers (tcFlags cfg) f (n + 1) (dropWs cs)).map fun p => (.obj p.1, p.2) := by
   simp only [parseValue]
   simp only [if_true, hd, if_false]
   rw [skipWs_eq _ _ (Nat.lt_succ_self _)]
@@ -60,15 +60,15 @@ theorem pv_obj_cons (cfg : Cfg) (f n : Nat) (cs : Bytes) (hd : ¬ n + 1 > cfg.ma
     rw [heq]
 
 theorem pe_last (cfg : Cfg) (f d : Nat) (s s1 rest : Bytes) (v : JT)
-    (hv : parseValue (strictFlags cfg) f d s = some (v, s1)) (h : dropWs s1 = 93 :: rest) :
-    parseElems (strictFlags cfg) (f + 1) d s = some ([v], rest) := by
+    (hv : parseValue (tcFlags cfg) f d s = some (v, s1)) (h : dropWs s1 = 93 :: rest) :
+    parseElems (tcFlags cfg) (f + 1) d s = some ([v], rest) := by
   simp only [parseElems, hv]
   rw [skipWs_eq _ _ (Nat.lt_succ_self _), h]
   rfl
 
 theorem pe_more (cfg : Cfg) (f d : Nat) (s s1 s2 : Bytes) (v : JT)
-    (hv : parseValue (strictFlags cfg) f d s = some (v, s1)) (h : dropWs s1 = 44 :: s2) (h3 : ∀ rest, dropWs s2 ≠ 93 :: rest) :
-    parseElems (strictFlags cfg) (f + 1) d s = (parseElems (strictFlags cfg) f d (dropWs s2)).map fun p => (v :: p.1, p.2) := by
+    (hv : parseValue (tcFlags cfg) f d s = some (v, s1)) (h : dropWs s1 = 44 :: s2) (h3 : ∀ rest, dropWs s2 ≠ 93 :: rest) :
+    parseElems (tcFlags cfg) (f + 1) d s = (parseElems (tcFlags cfg) f d (dropWs s2)).map fun p => (v :: p.1, p.2) := by
   simp only [parseElems, hv]
   rw [skipWs_eq _ _ (Nat.lt_succ_self _), h]
   simp only
@@ -84,8 +84,8 @@ theorem pe_more (cfg : Cfg) (f d : Nat) (s s1 s2 : Bytes) (v : JT)
 
 theorem pm_last (cfg : Cfg) (f d : Nat) (s s1 s2 s4 rest k : Bytes) (v : JT)
     (hk : parseString s = some (k, s1)) (h1 : dropWs s1 = 58 :: s2)
-    (hv : parseValue (strictFlags cfg) f d (dropWs s2) = some (v, s4)) (h4 : dropWs s4 = 125 :: rest) :
-    parseMembers (strictFlags cfg) (f + 1) d s = some ([(k, v)], rest) := by
+    (hv : parseValue (tcFlags cfg) f d (dropWs s2) = some (v, s4)) (h4 : dropWs s4 = 125 :: rest) :
+    parseMembers (tcFlags cfg) (f + 1) d s = some ([(k, v)], rest) := by
   simp only [parseMembers, hk]
   rw [skipWs_eq _ _ (Nat.lt_succ_self _), h1]
   simp only
@@ -96,10 +96,10 @@ theorem pm_last (cfg : Cfg) (f d : Nat) (s s1 s2 s4 rest k : Bytes) (v : JT)
 
 theorem pm_more (cfg : Cfg) (f d : Nat) (s s1 s2 s4 s5 k : Bytes) (v : JT)
     (hk : parseString s = some (k, s1)) (h1 : dropWs s1 = 58 :: s2)
-    (hv : parseValue (strictFlags cfg) f d (dropWs s2) = some (v, s4)) (h4 : dropWs s4 = 44 :: s5)
+    (hv : parseValue (tcFlags cfg) f d (dropWs s2) = some (v, s4)) (h4 : dropWs s4 = 44 :: s5)
     (h6 : ∀ rest, dropWs s5 ≠ 125 :: rest) :
-    parseMembers (strictFlags cfg) (f + 1) d s =
-      (parseMembers (strictFlags cfg) f d (dropWs s5)).map fun p => ((k, v) :: p.1, p.2) := by
+    parseMembers (tcFlags cfg) (f + 1) d s =
+      (parseMembers (tcFlags cfg) f d (dropWs s5)).map fun p => ((k, v) :: p.1, p.2) := by
   simp only [parseMembers, hk]
   rw [skipWs_eq _ _ (Nat.lt_succ_self _), h1]
   simp only
@@ -117,34 +117,64 @@ theorem pm_more (cfg : Cfg) (f d : Nat) (s s1 s2 s4 s5 k : Bytes) (v : JT)
     simp only [Option.some.injEq] at heq
     rw [heq]
 
+theorem pe_trail (cfg : Cfg) (htc : cfg.trailingComma = true) (f d : Nat) (s s1 s2 rest : Bytes) (v : JT)
+    (hv : parseValue (tcFlags cfg) f d s = some (v, s1)) (h : dropWs s1 = 44 :: s2) (h3 : dropWs s2 = 93 :: rest) :
+    parseElems (tcFlags cfg) (f + 1) d s = some ([v], rest) := by
+  simp only [parseElems, hv]
+  rw [skipWs_eq _ _ (Nat.lt_succ_self _), h]
+  simp only
+  rw [skipWs_eq _ _ (Nat.lt_succ_self _), h3]
+  simp [htc]
+
+theorem pm_trail (cfg : Cfg) (htc : cfg.trailingComma = true) (f d : Nat) (s s1 s2 s4 s5 rest k : Bytes) (v : JT)
+    (hk : parseString s = some (k, s1)) (h1 : dropWs s1 = 58 :: s2)
+    (hv : parseValue (tcFlags cfg) f d (dropWs s2) = some (v, s4)) (h4 : dropWs s4 = 44 :: s5)
+    (h6 : dropWs s5 = 125 :: rest) :
+    parseMembers (tcFlags cfg) (f + 1) d s = some ([(k, v)], rest) := by
+  simp only [parseMembers, hk]
+  rw [skipWs_eq _ _ (Nat.lt_succ_self _), h1]
+  simp only
+  rw [skipWs_eq _ _ (Nat.lt_succ_self _)]
+  simp only [hv]
+  rw [skipWs_eq _ _ (Nat.lt_succ_self _), h4]
+  simp only
+  rw [skipWs_eq _ _ (Nat.lt_succ_self _), h6]
+  simp [htc]
+
+/-- `]` directly after a comma without `allow_trailing_comma`: extra_comma -/
+theorem trailing_rbracket_dead (cfg : Cfg) (htc : ¬ cfg.trailingComma = true) (s : St) (hs : s.st = .expectValue) (he : s.err = none) :
+    (feedChar cfg s 93).err.isSome = true := by
+  simp [feedChar, he, stepChar, hs, isCtl, spaceOrSlash, valueStart, htc, fail]
+  split <;> rfl
+
 /-! ### the converse simulation -/
 
-/-- the head of the remaining input where a value must start: not white space (it has been skipped), and not the `]` that
-    closes an empty array -/
-def HeadOK (s : Bytes) (s0 : St) : Prop := ∀ c r, s = c :: r → isWs c = false ∧ ¬ (c = 93 ∧ s0.st = .expectValueOrEnd)
+/-- the head of the remaining input where a value must start: not white space (it has been skipped), and not a `]` directly
+    inside an array (the end of an empty array, or a trailing comma) -/
+def HeadOK (s : Bytes) (s0 : St) : Prop := ∀ c r, s = c :: r → isWs c = false ∧ ¬ (c = 93 ∧ parent s0 = .array)
 
 /-- an accepting run from a state that expects a value, on an input shorter than `k` -/
 def VAt (cfg : Cfg) (k : Nat) : Prop :=
   ∀ (s : Bytes), s.length < k → ∀ (n : Nat) (stk : List PS) (s0 : St), Ctx stk n → s0.stack = stk → s0.level = n →
     vState s0.st = true → HeadOK s s0 → surrogateOK s = true → Acc cfg s0 s →
-    ∃ v r s1, (∀ f, s.length - r.length ≤ f → parseValue (strictFlags cfg) f n s = some (v, r)) ∧ r.length < s.length ∧
+    ∃ v r s1, (∀ f, s.length - r.length ≤ f → parseValue (tcFlags cfg) f n s = some (v, r)) ∧ r.length < s.length ∧
       surrogateOK r = true ∧ Acc cfg s1 r ∧ Shape s1 (afterSt n) stk n
 
 /-- … from a state that expects an element of an array -/
 def EAt (cfg : Cfg) (k : Nat) : Prop :=
   ∀ (s : Bytes), s.length < k → ∀ (n : Nat) (stk : List PS) (s0 : St), Ctx stk n → s0.stack = .array :: stk → s0.level = n + 1 →
     vState s0.st = true → HeadOK s s0 → surrogateOK s = true → Acc cfg s0 s →
-    ∃ xs r s1, (∀ f, s.length - r.length ≤ f → parseElems (strictFlags cfg) f (n + 1) s = some (xs, r)) ∧ r.length < s.length ∧
+    ∃ xs r s1, (∀ f, s.length - r.length ≤ f → parseElems (tcFlags cfg) f (n + 1) s = some (xs, r)) ∧ r.length < s.length ∧
       surrogateOK r = true ∧ Acc cfg s1 r ∧ Shape s1 (afterSt n) stk n
 
 /-- … from a state that expects a member name, at the opening quote -/
 def MAt (cfg : Cfg) (k : Nat) : Prop :=
   ∀ (s : Bytes), s.length < k → ∀ (n : Nat) (stk : List PS) (s0 : St), Ctx stk n → s0.stack = .object :: stk → s0.level = n + 1 →
     (s0.st = .expectMemberNameOrEnd ∨ s0.st = .expectMemberName) → (∃ r, s = 34 :: r) → surrogateOK s = true → Acc cfg s0 s →
-    ∃ ms r s1, (∀ f, s.length - r.length ≤ f → parseMembers (strictFlags cfg) f (n + 1) s = some (ms, r)) ∧ r.length < s.length ∧
+    ∃ ms r s1, (∀ f, s.length - r.length ≤ f → parseMembers (tcFlags cfg) f (n + 1) s = some (ms, r)) ∧ r.length < s.length ∧
       surrogateOK r = true ∧ Acc cfg s1 r ∧ Shape s1 (afterSt n) stk n
 
-theorem sound_value (cfg : Cfg) (hcm : cfg.comments = false) (htc : cfg.trailingComma = false) (k : Nat)
+theorem sound_value (cfg : Cfg) (hcm : cfg.comments = false) (k : Nat)
     (ihE : EAt cfg k) (ihM : MAt cfg k) : VAt cfg (k + 1) := by
   intro s hlen n stk s0 hctx hstk hlvl hvs hhead hok hacc
   have he := hacc.err_none
@@ -154,7 +184,7 @@ theorem sound_value (cfg : Cfg) (hcm : cfg.comments = false) (htc : cfg.trailing
     obtain ⟨hw, hne⟩ := hhead c cs rfl
     have hlen' : cs.length < k := by simpa using hlen
     have hdl := dropWs_length cs
-    rcases value_head cfg hcm htc s0 hvs c cs hw hne hacc with rfl | rfl | rfl | rfl | rfl | rfl | ⟨ns0, hns⟩
+    rcases value_head cfg hcm s0 hvs c cs hw hne hacc with rfl | rfl | rfl | rfl | rfl | rfl | ⟨ns0, hns⟩
     · -- an object
       have hd := depth_inv cfg s0 hvs 123 (Or.inr rfl) cs hacc
       obtain ⟨sB, RB, hB1, hB2, hB3⟩ := reach_beginObject cfg s0 cs hvs he hd
@@ -162,7 +192,7 @@ theorem sound_value (cfg : Cfg) (hcm : cfg.comments = false) (htc : cfg.trailing
       have hd' : ¬ n + 1 > cfg.maxDepth := by rw [← hlvl]; exact hd
       have hA := (hacc.of_reach RB).ws (by rw [hB1]; rfl)
       have hokB : surrogateOK (dropWs cs) = true := sOK_dropWs cs (sOK_cons 123 cs (by decide) hok)
-      rcases key_inv cfg hcm htc sB (Or.inl hB1) (dropWs cs) (fun c r e => dropWs_head cs c r e) hA with ⟨r, hr⟩ | ⟨_, r, hr⟩
+      rcases key_inv cfg hcm sB (Or.inl hB1) (dropWs cs) (fun c r e => dropWs_head cs c r e) hA with ⟨r, hr⟩ | ⟨_, r, hr⟩
       · obtain ⟨ms, r', sM, hp, hl', hok', hAM, hM⟩ := ihM (dropWs cs) (by omega) n stk sB hctx hB2 hB3 (Or.inl hB1) ⟨r, hr⟩ hokB hA
         refine ⟨.obj ms, r', sM, ?_, by simp only [List.length_cons]; omega, hok', hAM, hM⟩
         intro f hf
@@ -255,7 +285,7 @@ theorem sound_value (cfg : Cfg) (hcm : cfg.comments = false) (htc : cfg.trailing
         (repeat' split at hns) <;> cases hns <;> omega
       simp [parseValue, e1, hp]
 
-theorem sound_elems (cfg : Cfg) (hcm : cfg.comments = false) (htc : cfg.trailingComma = false) (k : Nat)
+theorem sound_elems (cfg : Cfg) (hcm : cfg.comments = false) (k : Nat)
     (hV : VAt cfg (k + 1)) (ihE : EAt cfg k) : EAt cfg (k + 1) := by
   intro s hlen n stk s0 hctx hstk hlvl hvs hhead hok hacc
   obtain ⟨v, s1, sV, hpv, hl1, hok1, hA1, hV1, hV2, hV3⟩ :=
@@ -280,22 +310,36 @@ theorem sound_elems (cfg : Cfg) (hcm : cfg.comments = false) (htc : cfg.trailing
     have hok2 := sOK_dropWs s2 (sOK_cons 44 s2 (by decide) hok1')
     have hlen2 := dropWs_length s2
     have hl2 : s2.length + 1 = (dropWs s1).length := by rw [hr]; rfl
-    have hhead3 : HeadOK (dropWs s2) sC := by
-      intro c r e
-      exact ⟨dropWs_head s2 c r e, fun hh => by rw [hC1] at hh; cases hh.2⟩
-    have h93 : ∀ rest, dropWs s2 ≠ 93 :: rest := by
-      intro rest e
-      rw [e] at hAC
-      rcases value_head cfg hcm htc sC (by rw [hC1]; rfl) 93 rest (by decide) (fun hh => by rw [hC1] at hh; cases hh.2) hAC
-        with h | h | h | h | h | h | ⟨ns0, h⟩ <;> simp [numStart] at h
-    obtain ⟨xs, r, sM, hpe, hl3, hok3, hAM, hM⟩ :=
-      ihE (dropWs s2) (by omega) n stk sC hctx hC2 hC3 (by rw [hC1]; rfl) hhead3 hok2 hAC
-    refine ⟨v :: xs, r, sM, ?_, by omega, hok3, hAM, hM⟩
-    intro f hf
-    obtain ⟨f', rfl⟩ : ∃ f', f = f' + 1 := ⟨f - 1, by omega⟩
-    rw [pe_more cfg f' (n + 1) s s1 s2 v (hpv f' (by omega)) hr h93, hpe f' (by omega)]; rfl
+    cases hs3 : dropWs s2 with
+    | nil => rw [hs3] at hAC; exact absurd hAC (value_not_eof cfg sC (by rw [hC1]; rfl))
+    | cons c3 r3 =>
+      by_cases h93c : c3 = 93
+      · -- a trailing comma
+        subst h93c
+        rw [hs3] at hAC hok2
+        by_cases htc : cfg.trailingComma = true
+        · obtain ⟨sE, RE, hE⟩ := reach_endArray_trailing cfg htc sC r3 stk n hC1 RC.2.1 hC2 hC3
+          have hlr : r3.length + 1 = (dropWs s2).length := by rw [hs3]; rfl
+          refine ⟨[v], r3, sE, ?_, by omega, sOK_cons 93 r3 (by decide) hok2, hAC.of_reach RE, hE⟩
+          intro f hf
+          obtain ⟨f', rfl⟩ : ∃ f', f = f' + 1 := ⟨f - 1, by omega⟩
+          exact pe_trail cfg htc f' (n + 1) s s1 s2 r3 v (hpv f' (by omega)) hr hs3
+        · exact absurd hAC (Acc.not_dead (trailing_rbracket_dead cfg htc sC hC1 RC.2.1))
+      · have hhead3 : HeadOK (dropWs s2) sC := by
+          intro c r e
+          rw [hs3] at e; cases e
+          exact ⟨dropWs_head s2 _ _ hs3, fun hh => h93c hh.1⟩
+        have h93 : ∀ rest, dropWs s2 ≠ 93 :: rest := by
+          intro rest e
+          rw [hs3] at e; cases e; exact h93c rfl
+        obtain ⟨xs, r, sM, hpe, hl3, hok3, hAM, hM⟩ :=
+          ihE (dropWs s2) (by omega) n stk sC hctx hC2 hC3 (by rw [hC1]; rfl) hhead3 hok2 hAC
+        refine ⟨v :: xs, r, sM, ?_, by omega, hok3, hAM, hM⟩
+        intro f hf
+        obtain ⟨f', rfl⟩ : ∃ f', f = f' + 1 := ⟨f - 1, by omega⟩
+        rw [pe_more cfg f' (n + 1) s s1 s2 v (hpv f' (by omega)) hr h93, hpe f' (by omega)]; rfl
 
-theorem sound_members (cfg : Cfg) (hcm : cfg.comments = false) (htc : cfg.trailingComma = false) (k : Nat)
+theorem sound_members (cfg : Cfg) (hcm : cfg.comments = false) (k : Nat)
     (hV : VAt cfg k) (ihM : MAt cfg k) : MAt cfg (k + 1) := by
   intro s hlen n stk s0 hctx hstk hlvl hs0 hq hok hacc
   obtain ⟨cs, rfl⟩ := hq
@@ -321,7 +365,7 @@ theorem sound_members (cfg : Cfg) (hcm : cfg.comments = false) (htc : cfg.traili
   have hlen2 := dropWs_length s2
   have hhead3 : HeadOK (dropWs s2) sC := by
     intro c r e
-    exact ⟨dropWs_head s2 c r e, fun hh => by rw [hC1] at hh; cases hh.2⟩
+    exact ⟨dropWs_head s2 c r e, fun hh => by simp [parent, hC2] at hh⟩
   obtain ⟨v, s4, sV, hpv, hl4, hok4, hA4, hV1, hV2, hV3⟩ :=
     hV (dropWs s2) (by omega) (n + 1) (.object :: stk) sC (Ctx.obj hctx) hC2 hC3 (by rw [hC1]; rfl) hhead3 hok2 hAC
   rw [afterSt_succ] at hV1
@@ -346,7 +390,7 @@ theorem sound_members (cfg : Cfg) (hcm : cfg.comments = false) (htc : cfg.traili
     have hok5 := sOK_dropWs s5 (sOK_cons 44 s5 (by decide) hok4')
     have hlen5 := dropWs_length s5
     have hl5 : s5.length + 1 = (dropWs s4).length := by rw [hr4]; rfl
-    rcases key_inv cfg hcm htc sD (Or.inr hD1) (dropWs s5) (fun c r e => dropWs_head s5 c r e) hAD with ⟨r, hr⟩ | ⟨hc, _⟩
+    rcases key_inv cfg hcm sD (Or.inr hD1) (dropWs s5) (fun c r e => dropWs_head s5 c r e) hAD with ⟨r, hr⟩ | ⟨hc, r, hr⟩
     · obtain ⟨ms, r', sM, hpm, hl6, hok6, hAM, hM⟩ :=
         ihM (dropWs s5) (by omega) n stk sD hctx hD2 hD3 (Or.inr hD1) ⟨r, hr⟩ hok5 hAD
       refine ⟨(kb, v) :: ms, r', sM, ?_, by simp only [List.length_cons]; omega, hok6, hAM, hM⟩
@@ -355,28 +399,46 @@ theorem sound_members (cfg : Cfg) (hcm : cfg.comments = false) (htc : cfg.traili
       obtain ⟨f', rfl⟩ : ∃ f', f = f' + 1 := ⟨f - 1, by omega⟩
       rw [pm_more cfg f' (n + 1) (34 :: cs) s1 s2 s4 s5 kb v hp hr1 (hpv f' (by omega)) hr4
         (by intro rest e; rw [hr] at e; cases e), hpm f' (by omega)]; rfl
-    · rw [hD1] at hc; cases hc
+    · -- a trailing comma
+      have htc : cfg.trailingComma = true := by
+        rcases hc with hc | hc
+        · rw [hD1] at hc; cases hc
+        · exact hc
+      rw [hr] at hAD hok5
+      obtain ⟨sE, RE, hE⟩ := reach_endObject_trailing cfg htc sD r stk n hD1 RD.2.1 hD2 hD3
+      have hlr : r.length + 1 = (dropWs s5).length := by rw [hr]; rfl
+      refine ⟨[(kb, v)], r, sE, ?_, by simp only [List.length_cons]; omega, sOK_cons 125 r (by decide) hok5, hAD.of_reach RE, hE⟩
+      intro f hf
+      simp only [List.length_cons] at hf
+      obtain ⟨f', rfl⟩ : ∃ f', f = f' + 1 := ⟨f - 1, by omega⟩
+      exact pm_trail cfg htc f' (n + 1) (34 :: cs) s1 s2 s4 s5 r kb v hp hr1 (hpv f' (by omega)) hr4 hr
 
-theorem sound_all (cfg : Cfg) (hcm : cfg.comments = false) (htc : cfg.trailingComma = false) :
+theorem sound_all (cfg : Cfg) (hcm : cfg.comments = false) :
     ∀ k, VAt cfg k ∧ EAt cfg k ∧ MAt cfg k
   | 0 => ⟨fun _ h => absurd h (Nat.not_lt_zero _), fun _ h => absurd h (Nat.not_lt_zero _), fun _ h => absurd h (Nat.not_lt_zero _)⟩
   | k + 1 =>
-    have ih := sound_all cfg hcm htc k
-    have hV := sound_value cfg hcm htc k ih.2.1 ih.2.2
-    ⟨hV, sound_elems cfg hcm htc k hV ih.2.1, sound_members cfg hcm htc k ih.1 ih.2.2⟩
+    have ih := sound_all cfg hcm k
+    have hV := sound_value cfg hcm k ih.2.1 ih.2.2
+    ⟨hV, sound_elems cfg hcm k hV ih.2.1, sound_members cfg hcm k ih.1 ih.2.2⟩
 
-/-- SOUNDNESS for whole documents -/
-theorem run_sound (cfg : Cfg) (hcm : cfg.comments = false) (htc : cfg.trailingComma = false) (bs : Bytes)
-    (hok : surrogateOK bs = true) (h : accepted (run cfg bs) = true) : ∃ v, parseText (strictFlags cfg) bs = some v := by
+/-- SOUNDNESS for whole documents, comments off, with the parser's own trailing-comma option -/
+theorem run_sound_tc (cfg : Cfg) (hcm : cfg.comments = false) (bs : Bytes)
+    (hok : surrogateOK bs = true) (h : accepted (run cfg bs) = true) : ∃ v, parseText (tcFlags cfg) bs = some v := by
   have hacc : Acc cfg init bs := h
   have hA := hacc.ws rfl
   have hhead : HeadOK (dropWs bs) init := by
     intro c r e
-    exact ⟨dropWs_head bs c r e, fun hh => by cases hh.2⟩
-  obtain ⟨v, r, s1, hp, hl, _, hA1, h1, _, _⟩ := (sound_all cfg hcm htc ((dropWs bs).length + 1)).1 (dropWs bs) (Nat.lt_succ_self _)
+    exact ⟨dropWs_head bs c r e, fun hh => by simp [parent, init] at hh⟩
+  obtain ⟨v, r, s1, hp, hl, _, hA1, h1, _, _⟩ := (sound_all cfg hcm ((dropWs bs).length + 1)).1 (dropWs bs) (Nat.lt_succ_self _)
     0 [.root] init Ctx.root rfl rfl rfl hhead (sOK_dropWs bs hok) hA
   have hr := accept_sound cfg r s1 (Or.inl h1) hA1.err_none hA1
   exact ⟨v, parseText_of _ rfl bs r v (hp _ (by omega)) hr⟩
+
+/-- SOUNDNESS for whole documents -/
+theorem run_sound (cfg : Cfg) (hcm : cfg.comments = false) (htc : cfg.trailingComma = false) (bs : Bytes)
+    (hok : surrogateOK bs = true) (h : accepted (run cfg bs) = true) : ∃ v, parseText (strictFlags cfg) bs = some v := by
+  have := run_sound_tc cfg hcm bs hok h
+  rwa [show tcFlags cfg = strictFlags cfg by simp [htc]] at this
 
 /-- a text without any `\u` escape (no backslash followed by `u`) has no surrogate anomaly -/
 theorem sOK_of_noU : ∀ (n : Nat) (s : Bytes), s.length ≤ n → NoU s → surrogateOK s = true
